@@ -5,11 +5,10 @@ import (
 	"go/token"
 	"go/types"
 
-	"golang.org/x/tools/go/ast/astutil"
 )
 
 func enclosingLoopText(f *ast.File, pos token.Pos) string {
-	path, _ := astutil.PathEnclosingInterval(f, pos, pos)
+	path := pathEnclosing(f, pos, pos)
 	for _, n := range path {
 		switch x := n.(type) {
 		case *ast.ForStmt:
@@ -28,4 +27,63 @@ func enclosingLoopText(f *ast.File, pos token.Pos) string {
 		}
 	}
 	return ""
+}
+
+// pathEnclosing is astutil.PathEnclosingInterval for syntax trees whose
+// children are not in source order any more (normalizeComparisons exchanges
+// the operands of a comparison, after which the comparison's own Pos/End
+// interval is inverted and containment-guided descent misses what lies below
+// it).  It returns the innermost node whose own interval contains [lo,hi]
+// followed by all its ancestors.
+func pathEnclosing(f *ast.File, lo, hi token.Pos) []ast.Node {
+	idx := fileIndexOf(f)
+	if hi == lo {
+		hi = lo + 1 // as astutil does: the one-character interval following lo
+	}
+	var best ast.Node
+	var bestLen token.Pos = -1
+	for _, n := range idx.nodes {
+		p, e := n.Pos(), n.End()
+		if p <= lo && hi <= e && p <= e {
+			if l := e - p; bestLen < 0 || l < bestLen || l == bestLen && idx.depth[n] > idx.depth[best] {
+				best, bestLen = n, l
+			}
+		}
+	}
+	var path []ast.Node
+	for n := best; n != nil; n = idx.parent[n] {
+		path = append(path, n)
+	}
+	return path
+}
+
+type fileIndex struct {
+	nodes  []ast.Node
+	parent map[ast.Node]ast.Node
+	depth  map[ast.Node]int
+}
+
+var fileIndexCache = map[*ast.File]*fileIndex{}
+
+func fileIndexOf(f *ast.File) *fileIndex {
+	if idx, ok := fileIndexCache[f]; ok {
+		return idx
+	}
+	idx := &fileIndex{parent: map[ast.Node]ast.Node{}, depth: map[ast.Node]int{}}
+	var stack []ast.Node
+	ast.Inspect(f, func(n ast.Node) bool {
+		if n == nil {
+			stack = stack[:len(stack)-1]
+			return true
+		}
+		if len(stack) > 0 {
+			idx.parent[n] = stack[len(stack)-1]
+		}
+		idx.depth[n] = len(stack)
+		idx.nodes = append(idx.nodes, n)
+		stack = append(stack, n)
+		return true
+	})
+	fileIndexCache[f] = idx
+	return idx
 }
